@@ -117,6 +117,17 @@ func genWritersCase(t *rapid.T, kinds []string, poison bool) E1Case {
 	if c.Kind != "sync" && rapid.IntRange(0, 2).Draw(t, "directed") == 0 {
 		c.Prefix = genReleasePrefix(t, nw)
 	}
+	if c.Kind == "sync" && rapid.IntRange(0, 3).Draw(t, "deadlinefault") == 0 {
+		// a context write arms a write deadline and clears it afterwards; one of those calls fails on the transport
+		for ti := range c.Tasks {
+			for oi := range c.Tasks[ti].Ops {
+				if op := &c.Tasks[ti].Ops[oi]; (op.Op == "ctxwrite1" || op.Op == "ctxwritev") && op.Ctx == "" {
+					op.Ctx = "deadline"
+				}
+			}
+		}
+		c.Faults = []mock.Fault{{Op: "deadline", K: rapid.IntRange(1, 4).Draw(t, "dfk"), Err: rapid.SampledFrom([]string{"plain", "neterr"}).Draw(t, "dferr")}}
+	}
 	c.Schedule = genSchedule(t, 200)
 	return c
 }
